@@ -118,25 +118,31 @@ def spreadNames : Args → List Str
   | .cons (.spread x) r => x :: spreadNames r
   | .cons _ r => spreadNames r
 
-/-- Spread arguments: "the exports of the instance will be spread to any unspecified and
-    unsatisfied instantiation arguments", "applied in-order", "an evaluation error if a spread
-    argument has no matching exports".  `given` are the argument names already bound. -/
+/-- One spread argument: "the exports of the instance will be spread to any unspecified and
+    unsatisfied instantiation arguments", "an evaluation error if a spread argument has no matching
+    exports", "an error for the local name … to name anything other than an instance".
+    `given` are the arguments already bound. -/
+def spreadStep (st : St) (imports : List Str) (x : Str) (given : List (Str × Val)) :
+    Except Diag (List (Str × Val)) :=
+  match lookup st x with
+  | .error e => .error e
+  | .ok v =>
+    match v.kind.instExports with
+    | none => .error (.notInstance .spread)
+    | some es =>
+      let contributed := imports.filter (fun n => !alHas n given && es.has n)
+      if contributed.isEmpty then .error .spreadNoMatch
+      else .ok (given ++ contributed.map fun n =>
+             (n, { prov := .exportOf v.prov n, kind := (es.get n).getD default }))
+
+/-- Spread arguments are "applied in-order". -/
 def applySpreads (st : St) (imports : List Str) :
     List Str → List (Str × Val) → Except Diag (List (Str × Val))
   | [], given => .ok given
   | x :: rest, given =>
-    match lookup st x with
+    match spreadStep st imports x given with
     | .error e => .error e
-    | .ok v =>
-      match v.kind.instExports with
-      | none => .error (.notInstance .spread)
-      | some es =>
-        let contributed := imports.filter (fun n => !alHas n given && es.has n)
-        if contributed.isEmpty then .error .spreadNoMatch
-        else
-          applySpreads st imports rest
-            (given ++ contributed.map fun n =>
-              (n, { prov := .exportOf v.prov n, kind := (es.get n).getD default }))
+    | .ok given => applySpreads st imports rest given
 
 /-- every supplied argument must name an import of the component and fit its type -/
 def checkArgs (p : Package) : List (Str × Val) → Except Diag Unit
